@@ -286,6 +286,18 @@ def ghost_bind(unit, cname):
     return ' '.join(out)
 
 
+def _load_shapes():
+    p = os.path.join(os.path.dirname(os.path.abspath(__file__)), '..', 'contracts', 'local_shapes.json')
+    try:
+        return json.load(open(p))
+    except Exception:
+        return {}
+
+
+LOCAL_SHAPES = _load_shapes()
+RECORD_SHAPES = None      # set to a dict by tools/record_shapes.py
+
+
 def find_one(ast, ref):
     q, sig = ref if isinstance(ref, (tuple, list)) else (ref, None)
     if q.startswith('@'):
@@ -363,6 +375,16 @@ def build_c(ast, unit, registry):
         callee_ghosts += [ghost_name(n, f.cname) for ct, n, e in ru.ghost] + list(ru.bind_assigns)
     binds_list = ', '.join(callee_ghosts)
     ucontract = unit.contract(ast, L, tf) if callable(unit.contract) else unit.contract
+    # positional bindings of locals ($Lk) survive renames; they are only meaningful while the function declares the same sequence of
+    # local types as when the contract was written (contracts/local_shapes.json): otherwise extraction break, never a verdict
+    _lt = (ucontract or '') + ''.join(v for v in ((unit.loops if isinstance(unit.loops, dict) else {}) or {}).values())
+    if re.search(r'\$L\d', _lt):
+        shape = [t for n, t in tf.locals]
+        rec = LOCAL_SHAPES.get(unit.id)
+        if RECORD_SHAPES is not None:
+            RECORD_SHAPES[unit.id] = shape
+        elif rec is not None and rec != shape:
+            raise LowerError('%s: the sequence of local declarations changed (%s, recorded %s): positional bindings $Lk are no longer meaningful' % (tf.cname, shape, rec))
     tcontract = ghost_requires(unit, tf) + subst(expand_ghost(ucontract, unit, tf.cname), tf)
     if callee_ghosts:
         tcontract += '\n__CPROVER_assigns(%s)\n' % binds_list
